@@ -277,6 +277,9 @@ func classify(s *idlgen.Schema, eval func(eq func(*idlgen.RType, *values.Value, 
 		d := allDefects
 		switch i {
 		case 0:
+			if !d.missingKey {
+				continue
+			}
 			d.missingKey = false
 		case 1:
 			d.structKey = false
@@ -289,7 +292,10 @@ func classify(s *idlgen.Schema, eval func(eq func(*idlgen.RType, *values.Value, 
 	}
 	if len(out) == 0 {
 		// only a combination explains it: name every defect
-		out = []string{keyMissing, keyStructKey, keyOptBinary}
+		out = []string{keyStructKey, keyOptBinary}
+		if allDefects.missingKey {
+			out = append(out, keyMissing)
+		}
 	}
 	return out
 }
